@@ -5,50 +5,86 @@
    the parameters [DPar] (profile, soil scalars, irrigation / field management, crops, CO2, groundwater flag), the
    weather record [W] and the clock values are inputs that do not occur in the result types — the orchestration
    cannot change them.  (The only parameter store of the implementation while stepping, `Crop_.Aer = 5; Crop_.Zmin =
-   0.3` on the filler crop before the first season, is the pure function [fallow_crop] here and is reported in
-   GenFactsOK.reported_sites.) *)
-From Coq Require Import String List Bool ZArith Permutation.
+   0.3` on the filler crop before the first season, is the pure function [fallow_crop] here and is listed in
+   GenFactsOK.reported_sites.)
+
+   Method: a day is [day_out x R] where [x : Ctx] is everything the step receives and [R : Results] what the processes
+   returned; [Spec x P R] says that R is what the processes [P] return on the arguments recorded in the trace
+   ([results_spec]: the results computed by [day_core] satisfy it).  The theorems are stated for the day [day_core]
+   computes; hypotheses about individual processes are statements about THE CALLS OF THAT DAY (argument record in the
+   trace, result record), named like the theorems of the process units that discharge them. *)
+From Coq Require Import String List Bool ZArith.
 From AC Require Import Num RInst Params Clock Day.
-From AC.proofs Require Import ProfR.
+From AC.proofs Require Import ProfR GenFactsOK.
 From AC.gen Require Import StateFields.
 Import ListNotations.
 Local Open Scope R_scope.
 
-Notation dcore := (@day_core R RNops).
+(* ------------------------------------------------------------------------------------------------------------ *)
+(*  the results are the processes applied to the traced arguments                                                *)
+(* ------------------------------------------------------------------------------------------------------------ *)
+Record Spec (x : Ctx R) (P : Procs R) (R : Results R) : Prop := {
+  sp_gdd : rs_gdd R = if x_gs x then gdR_gdd (p_gd P (arg_gd x)) else 3 / 10;
+  sp_gw : rs_gw R = p_gw P (x_prof x) (t_gw (trace_of x R));
+  sp_rd : rs_rd R = p_rd P (x_prof x) (t_rd (trace_of x R));
+  sp_pi : rs_pi R = p_pi P (x_prof x) (t_pi (trace_of x R));
+  sp_dr : rs_dr R = p_dr P (x_prof x) (t_dr (trace_of x R));
+  sp_rp : rs_rp R = p_rp P (x_prof x) (t_rp (trace_of x R));
+  sp_ir : rs_ir R = p_ir P (x_prof x) (t_ir (trace_of x R));
+  sp_inf : rs_inf R = p_inf P (x_prof x) (t_inf (trace_of x R));
+  sp_cr : rs_cr R = p_cr P (x_prof x) (t_cr (trace_of x R));
+  sp_ge : rs_ge R = p_ge P (x_prof x) (t_ge (trace_of x R));
+  sp_gst : rs_gst R = p_gst P (t_gst (trace_of x R));
+  sp_cc : rs_cc R = p_cc P (x_prof x) (t_cc (trace_of x R));
+  sp_ev : rs_ev R = p_ev P (x_prof x) (t_ev (trace_of x R));
+  sp_tr : rs_tr R = p_tr P (x_prof x) (t_tr (trace_of x R));
+  sp_gi : rs_gi R = p_gi P (x_prof x) (t_gi (trace_of x R));
+  sp_hr : rs_hr R = p_hr P (t_hr (trace_of x R));
+  sp_bm : rs_bm R = p_bm P (t_bm (trace_of x R));
+  sp_hi : rs_hi R = p_hi P (x_prof x) (t_hi (trace_of x R));
+  sp_rz : rs_rz R = p_rz P (x_prof x) (t_rz (trace_of x R)) }.
 
-(* the results the processes returned on the day, recovered from the trace (argument records) *)
-Section Results.
-  Variables (par : DPar R) (P : Procs R) (tr : Trace R).
-  Let prof := so_prof (p_soil par).
-  Definition res_gw := p_gw P prof (t_gw tr).
-  Definition res_rd := p_rd P prof (t_rd tr).
-  Definition res_pi := p_pi P prof (t_pi tr).
-  Definition res_dr := p_dr P prof (t_dr tr).
-  Definition res_rp := p_rp P prof (t_rp tr).
-  Definition res_ir := p_ir P prof (t_ir tr).
-  Definition res_inf := p_inf P prof (t_inf tr).
-  Definition res_cr := p_cr P prof (t_cr tr).
-  Definition res_ge := p_ge P prof (t_ge tr).
-  Definition res_gst := p_gst P (t_gst tr).
-  Definition res_cc := p_cc P prof (t_cc tr).
-  Definition res_ev := p_ev P prof (t_ev tr).
-  Definition res_tr := p_tr P prof (t_tr tr).
-  Definition res_gi := p_gi P prof (t_gi tr).
-  Definition res_hr := p_hr P (t_hr tr).
-  Definition res_bm := p_bm P (t_bm tr).
-  Definition res_hi := p_hi P prof (t_hi tr).
-  Definition res_rz := p_rz P prof (t_rz tr).
-End Results.
+Lemma results_spec x P : Spec x P (results x P).
+Proof. constructor; reflexivity. Qed.
 
+Definition ctx (par : DPar R) (season : Z) (gs : bool) (dap tsc : Z) (w : Day.W R) (s : DState R) : Ctx R :=
+  {| x_par := par; x_season := season; x_gs := gs; x_dap := dap; x_tsc := tsc; x_w := w; x_s := s |}.
+
+Lemma day_core_out par P season gs dap tsc w s :
+  day_core par P season gs dap tsc w s = day_out (ctx par season gs dap tsc w s) (results (ctx par season gs dap tsc w s) P).
+Proof. reflexivity. Qed.
+
+Lemma day_proc_out par P season gs dap tsc w s :
+  day_proc par P season gs dap tsc w s =
+  (state_of (ctx par season gs dap tsc w s) (results (ctx par season gs dap tsc w s) P),
+   row_of (ctx par season gs dap tsc w s) (results (ctx par season gs dap tsc w s) P)).
+Proof. reflexivity. Qed.
+
+(* ============================================================================================================ *)
 Section Day.
   Variables (par : DPar R) (P : Procs R) (season : Z) (gs : bool) (dap tsc : Z) (w : Day.W R) (s : DState R).
-  Let o := dcore par P season gs dap tsc w s.
+  Let x := ctx par season gs dap tsc w s.
+  Let Rs := results x P.
+  Let o := day_core par P season gs dap tsc w s.
   Let s' := o_state o.
   Let row := o_row o.
   Let tr := o_trace o.
+  Let prof := so_prof (p_soil par).
   Let crop := sel_crop par season.
   Let irr := sel_irr par season.
   Let field := sel_field par season gs.
+  (* the argument and result records of the day's calls *)
+  Let a_pi := t_pi tr.   Let r_pi := p_pi P prof a_pi.
+  Let a_dr := t_dr tr.   Let r_dr := p_dr P prof a_dr.
+  Let a_rp := t_rp tr.   Let r_rp := p_rp P prof a_rp.
+  Let a_ir := t_ir tr.   Let r_ir := p_ir P prof a_ir.
+  Let a_inf := t_inf tr. Let r_inf := p_inf P prof a_inf.
+  Let a_cr := t_cr tr.   Let r_cr := p_cr P prof a_cr.
+  Let a_ev := t_ev tr.   Let r_ev := p_ev P prof a_ev.
+  Let a_tr := t_tr tr.   Let r_tr := p_tr P prof a_tr.
+  Let a_gi := t_gi tr.   Let r_gi := p_gi P prof a_gi.
+  Let a_gw := t_gw tr.   Let r_gw := p_gw P prof a_gw.
+  Let a_rz := t_rz tr.   Let r_rz := p_rz P prof a_rz.
 
   Lemma day_proc_eq : day_proc par P season gs dap tsc w s = (s', row).
   Proof. reflexivity. Qed.
@@ -60,64 +96,185 @@ Section Day.
     (gs = true -> gr_Dry g = (gr_B g / 100) * gr_HIadj g /\ gr_Fresh g = gr_Dry g / (c_YldWC crop / 100)) /\
     (gs = false -> gr_Dry g = 0 /\ gr_Fresh g = 0).
   Proof.
-    cbv zeta. split; [reflexivity|]. split; intros ->; split; reflexivity.
+    cbv zeta. split; [reflexivity|]. split; intros E.
+    - split; cbn [snd day_proc o_row day_core day_out row_of r_growth gr_Dry gr_Fresh gr_B gr_HIadj]; unfold fresh_of, dry_of;
+        cbn [x_gs]; rewrite E; reflexivity.
+    - split; cbn [snd day_proc o_row day_core day_out row_of r_growth gr_Dry gr_Fresh]; unfold fresh_of, dry_of; cbn [x_gs];
+        rewrite E; reflexivity.
   Qed.
 
-  (* the state keeps the same three values, and [summary_of] reports exactly them *)
+  (* the state keeps the same three values, and [summary_of] reports exactly them; the seasonal irrigation reported is
+     the counter of the selected strategy AFTER the step *)
   Theorem summary_values :
     let g := r_growth row in
     let so := summary_of par season gs s' in
     o_Dry so = gr_Dry g /\ o_Fresh so = gr_Fresh g /\ o_Pot so = gr_Pot g /\
     d_DryYield s' = gr_Dry g /\ d_FreshYield s' = gr_Fresh g /\ d_YieldPot s' = gr_Pot g /\
     o_IrrTot so = (if gs then (if (i_method irr =? 4)%Z then d_irr_net_cum s' else d_irr_cum s') else 0) /\
-    d_irr_cum s' = irR_irrcum (res_ir par P tr) /\
-    d_irr_net_cum s' = trR_irr_net_cum (res_tr par P tr) + piR_preirr (res_pi par P tr).
-  Proof. Time (cbv zeta; repeat split; reflexivity). Time Qed.
+    d_irr_cum s' = irR_irrcum r_ir /\
+    d_irr_net_cum s' = trR_irr_net_cum r_tr + piR_preirr r_pi.
+  Proof. cbv zeta. repeat split; reflexivity. Qed.
 
   (* ---------------------------------------------------------------- 2. what is written into the three rows *)
   Theorem row_wiring :
     let f := r_flux row in let g := r_growth row in let st := r_sto row in
     (* irrigation column: the irrigation process' Irr, or with net irrigation (method 4) transpiration's IrrNet plus
        the pre-irrigation; zero outside the season *)
-    fl_IrrDay f = (if gs then (if (i_method irr =? 4)%Z then trR_irrnet (res_tr par P tr) + piR_preirr (res_pi par P tr)
-                               else irR_irr (res_ir par P tr)) else 0) /\
-    (* Infl, Runoff, DeepPerc: the values returned by INFILTRATION (which received drainage's DeepPerc and
-       rainfall_partition's Runoff / Infl and returns the totals) *)
-    fl_Infl f = infR_infl (res_inf par P tr) /\ fl_Runoff f = infR_runoff (res_inf par P tr) /\
-    fl_DeepPerc f = infR_deepperc (res_inf par P tr) /\
-    infA_deepperc (t_inf tr) = drR_deepperc (res_dr par P tr) /\ infA_runoff (t_inf tr) = rpR_runoff (res_rp par P tr) /\
-    infA_infl (t_inf tr) = rpR_infl (res_rp par P tr) /\ infA_irr (t_inf tr) = irR_irr (res_ir par P tr) /\
-    infA_eff (t_inf tr) = i_AppEff irr /\ infA_gs (t_inf tr) = gs /\
-    fl_CR f = crR_cr (res_cr par P tr) /\ fl_GwIn f = giR_gwin (res_gi par P tr) /\
-    fl_Es f = evR_es (res_ev par P tr) /\ fl_EsPot f = evR_espot (res_ev par P tr) /\
-    fl_Tr f = trR_tr (res_tr par P tr) /\ fl_TrPot f = trR_trpot (res_tr par P tr) /\
+    fl_IrrDay f = (if gs then (if (i_method irr =? 4)%Z then trR_irrnet r_tr + piR_preirr r_pi else irR_irr r_ir) else 0) /\
+    (* Infl, Runoff, DeepPerc: the values returned by INFILTRATION, which received drainage's DeepPerc and
+       rainfall_partition's Runoff / Infl and the irrigation process' Irr, and returns the totals *)
+    fl_Infl f = infR_infl r_inf /\ fl_Runoff f = infR_runoff r_inf /\ fl_DeepPerc f = infR_deepperc r_inf /\
+    infA_deepperc a_inf = drR_deepperc r_dr /\ infA_runoff a_inf = rpR_runoff r_rp /\
+    infA_infl a_inf = rpR_infl r_rp /\ infA_irr a_inf = irR_irr r_ir /\ infA_eff a_inf = i_AppEff irr /\ infA_gs a_inf = gs /\
+    (* CR: capillary_rise; GwIn: groundwater_inflow; Es, EsPot: soil_evaporation; Tr, TrPot: transpiration *)
+    fl_CR f = crR_cr r_cr /\ fl_GwIn f = giR_gwin r_gi /\ fl_Es f = evR_es r_ev /\ fl_EsPot f = evR_espot r_ev /\
+    fl_Tr f = trR_tr r_tr /\ fl_TrPot f = trR_trpot r_tr /\
     (* state columns: values AFTER the last process *)
-    fl_surf f = d_surface_storage s' /\ d_surface_storage s' = trR_surf (res_tr par P tr) /\
-    fl_zgw f = d_z_gw s' /\ d_z_gw s' = gwR_zgw (res_gw par P tr) /\
-    fl_Wr f = rzR_wr (res_rz par P tr) /\ rzA_th (t_rz tr) = d_th s' /\ rzA_zroot (t_rz tr) = d_z_root s' /\
-    st_th st = d_th s' /\ d_th s' = giR_th (res_gi par P tr) /\
+    fl_surf f = d_surface_storage s' /\ d_surface_storage s' = trR_surf r_tr /\
+    fl_zgw f = d_z_gw s' /\ d_z_gw s' = gwR_zgw r_gw /\
+    fl_Wr f = rzR_wr r_rz /\ rzA_th a_rz = d_th s' /\ rzA_zroot a_rz = d_z_root s' /\
+    st_th st = d_th s' /\ d_th s' = giR_th r_gi /\
     gr_gdd_cum g = d_gdd_cum s' /\ gr_z_root g = d_z_root s' /\ gr_cc g = d_canopy_cover s' /\ gr_cc_ns g = d_canopy_cover_ns s' /\
     gr_B g = d_biomass s' /\ gr_B_ns g = d_biomass_ns s' /\ gr_HI g = d_harvest_index s' /\ gr_HIadj g = d_harvest_index_adj s' /\
     (* index columns *)
     fl_tsc f = tsc /\ fl_season f = season /\ fl_dap f = dap /\ gr_tsc g = tsc /\ gr_season g = season /\ gr_dap g = dap /\
     st_tsc st = tsc /\ st_gs st = gs /\ st_dap st = dap.
-  Proof. Time (cbv zeta; repeat split; reflexivity). Time Qed.
+  Proof. cbv zeta. repeat split; reflexivity. Qed.
 
   (* ---------------------------------------------------------------- 4. outside the growing season *)
   (* what the orchestration itself guarantees (Tr = 0, Irr = 0, CC = 0 ... come from the processes, which all receive
-     growing_season = false) *)
+     growing_season = false and, in the season's place, the fallow field management) *)
   Theorem off_season_wiring : gs = false ->
     fl_IrrDay (r_flux row) = 0 /\ gr_Dry (r_growth row) = 0 /\ gr_Fresh (r_growth row) = 0 /\
     gr_gdd_cum (r_growth row) = 0 /\ d_gdd_cum s' = 0 /\ d_DryYield s' = 0 /\ d_FreshYield s' = 0 /\
     d_growing_season s' = false /\ d_gdd s' = d_gdd s /\ t_gd tr = None /\
     gr_gdd (r_growth row) = 3 / 10 /\                 (* the local gdd handed to the processes and REPORTED off season *)
     o_IrrTot (summary_of par season gs s') = 0 /\
-    d_depletion s' = rzR_drrz (res_rz par P tr) /\ d_taw s' = rzR_tawrz (res_rz par P tr) /\
-    field = (if (0 <=? season)%Z then p_fallow_field par else p_fallow_field par) /\
+    d_depletion s' = rzR_drrz r_rz /\ d_taw s' = rzR_tawrz r_rz /\
+    field = p_fallow_field par /\
     rdA_gs (t_rd tr) = false /\ piA_gs (t_pi tr) = false /\ irA_gs (t_ir tr) = false /\ infA_gs (t_inf tr) = false /\
     geA_gs (t_ge tr) = false /\ gstA_gs (t_gst tr) = false /\ ccA_gs (t_cc tr) = false /\ evA_gs (t_ev tr) = false /\
     trA_gs (t_tr tr) = false /\ hrA_gs (t_hr tr) = false /\ bmA_gs (t_bm tr) = false /\ hiA_gs (t_hi tr) = false.
   Proof.
-    intros E. subst o s' row tr field. rewrite E. repeat split; reflexivity.
+    intros E.
+    assert (Ef : field = p_fallow_field par) by (subst field; rewrite E; unfold sel_field; destruct (0 <=? season)%Z; reflexivity).
+    subst r_rz a_rz r_ir a_ir r_tr a_tr r_pi a_pi o s' row tr x Rs. clear - E Ef.
+    unfold day_core, day_out, state_of, row_of, trace_of, irrday_of, dry_of, fresh_of, gdd_cum_of, summary_of.
+    cbn [o_state o_row o_trace r_flux r_growth fl_IrrDay gr_Dry gr_Fresh gr_gdd_cum gr_gdd d_gdd_cum d_DryYield d_FreshYield
+         d_growing_season d_gdd t_gd o_IrrTot d_depletion d_taw x_gs x_s t_rd t_pi t_ir t_inf t_ge t_gst t_cc t_ev t_tr t_hr t_bm t_hi
+         t_rz rs_gdd results].
+    rewrite E. repeat split; try reflexivity. exact Ef.
+  Qed.
+
+  (* ---------------------------------------------------------------- 3. C01: the water balance of the day *)
+  (* water offered to the surface by the infiltration call: max(Infl,0) plus, in the season, Irr * AppEff/100 *)
+  Definition offered (a : A_inf R) : R := Rmax (infA_infl a) 0 + (if infA_gs a then infA_irr a * (infA_eff a / 100) else 0).
+  (* the water the capillary-rise call actually added to the profile (its reported CR differs by rounding, see
+     GroundwaterR.capillary_balance) *)
+  Definition CRactual : R := storage prof (crR_th r_cr) - storage prof (crA_th a_cr).
+
+  (* the balance statements of the individual processes, for the calls of this day *)
+  Record CallsBalance : Prop := {
+    pre_irrigation_balance : storage prof (piR_th r_pi) = storage prof (piA_th a_pi) + piR_preirr r_pi;
+    pre_irrigation_inert : piA_gs a_pi = false \/ i_method (piA_irr a_pi) <> 4%Z -> piR_preirr r_pi = 0;
+    drainage_balance : storage prof (drR_th r_dr) + drR_deepperc r_dr = storage prof (drA_th a_dr);
+    infiltration_balance :
+      storage prof (infR_th r_inf) + infR_surf r_inf + infR_deepperc r_inf + infR_runoff r_inf =
+      storage prof (infA_th a_inf) + infA_surf a_inf + offered a_inf + infA_deepperc a_inf + infA_runoff a_inf;
+    surface_identity : infR_infl r_inf + (infR_runoff r_inf - infA_runoff a_inf) = offered a_inf;
+    evaporation_balance : storage prof (evR_th r_ev) + evR_surf r_ev + evR_es r_ev = storage prof (evA_th a_ev) + evA_surf a_ev;
+    transpiration_balance :
+      storage prof (trR_th r_tr) + trR_surf r_tr + trR_tr r_tr = storage prof (trA_th a_tr) + trA_surf a_tr + trR_irrnet r_tr;
+    net_irrigation_inert : trA_gs a_tr = false \/ trA_method a_tr <> 4%Z -> trR_irrnet r_tr = 0;
+    gw_inflow_balance : storage prof (giR_th r_gi) = storage prof (giA_th a_gi) + giR_gwin r_gi }.
+
+  (* every term but CRactual is read from the flux row written by the day; th/surf are those of the state before and
+     after the step.  No extra term is needed: the Runoff and DeepPerc produced before infiltration (rainfall_partition,
+     drainage) are handed to infiltration and come back inside the totals it returns, which are the ones reported. *)
+  Theorem day_balance : CallsBalance ->
+    let f := r_flux row in
+    storage prof (d_th s') + d_surface_storage s' - (storage prof (d_th s) + d_surface_storage s) =
+    fl_Infl f + (if (i_method irr =? 4)%Z then fl_IrrDay f else 0) + CRactual + fl_GwIn f - fl_DeepPerc f - fl_Es f - fl_Tr f.
+  Proof.
+    intros [B1 B2 B3 B4 B5 B6 B7 B8 B9]. cbv zeta.
+    change (d_th s') with (giR_th r_gi). change (d_surface_storage s') with (trR_surf r_tr).
+    change (fl_Infl (r_flux row)) with (infR_infl r_inf). change (fl_GwIn (r_flux row)) with (giR_gwin r_gi).
+    change (fl_DeepPerc (r_flux row)) with (infR_deepperc r_inf). change (fl_Es (r_flux row)) with (evR_es r_ev).
+    change (fl_Tr (r_flux row)) with (trR_tr r_tr).
+    change (fl_IrrDay (r_flux row)) with (if gs then (if (i_method irr =? 4)%Z then trR_irrnet r_tr + piR_preirr r_pi else irR_irr r_ir) else 0).
+    unfold CRactual.
+    change (piA_th a_pi) with (d_th s) in B1. change (piA_gs a_pi) with gs in B2. change (piA_irr a_pi) with irr in B2.
+    change (drA_th a_dr) with (piR_th r_pi) in B3.
+    change (infA_th a_inf) with (drR_th r_dr) in B4. change (infA_surf a_inf) with (d_surface_storage s) in B4.
+    change (infA_deepperc a_inf) with (drR_deepperc r_dr) in B4.
+    change (crA_th a_cr) with (infR_th r_inf).
+    change (evA_th a_ev) with (crR_th r_cr) in B6. change (evA_surf a_ev) with (infR_surf r_inf) in B6.
+    change (trA_th a_tr) with (evR_th r_ev) in B7. change (trA_surf a_tr) with (evR_surf r_ev) in B7.
+    change (trA_gs a_tr) with gs in B8. change (trA_method a_tr) with (i_method irr) in B8.
+    change (giA_th a_gi) with (trR_th r_tr) in B9.
+    destruct (Z.eqb_spec (i_method irr) 4) as [Em|Em].
+    - destruct gs.
+      + lra.
+      + rewrite B2, B8 in * by (left; reflexivity). lra.
+    - rewrite B2 in * by (right; exact Em). rewrite B8 in * by (right; exact Em). lra.
+  Qed.
+
+  (* ---------------------------------------------------------------- 3b. C03: bounds are preserved by the day *)
+  Variable zb : R.     (* the bound on the ponding depth (bund height, or 0 without bunds) *)
+  Definition surf_ok (v : R) : Prop := 0 <= v <= zb.
+  Record CallsBounds : Prop := {
+    pre_irrigation_bounds : in_bounds prof (piA_th a_pi) -> in_bounds prof (piR_th r_pi);
+    drainage_bounds : in_bounds prof (drA_th a_dr) -> in_bounds prof (drR_th r_dr);
+    infiltration_bounds : in_bounds prof (infA_th a_inf) -> surf_ok (infA_surf a_inf) ->
+                          in_bounds prof (infR_th r_inf) /\ surf_ok (infR_surf r_inf);
+    capillary_in_bounds : in_bounds prof (crA_th a_cr) -> in_bounds prof (crR_th r_cr);
+    evaporation_bounds : in_bounds prof (evA_th a_ev) -> surf_ok (evA_surf a_ev) ->
+                         in_bounds prof (evR_th r_ev) /\ surf_ok (evR_surf r_ev);
+    transpiration_bounds : in_bounds prof (trA_th a_tr) -> surf_ok (trA_surf a_tr) ->
+                           in_bounds prof (trR_th r_tr) /\ surf_ok (trR_surf r_tr);
+    gw_inflow_in_bounds : in_bounds prof (giA_th a_gi) -> in_bounds prof (giR_th r_gi) }.
+
+  (* the state after the day is within bounds, and so is the water content handed to every process in between *)
+  Theorem day_bounds : CallsBounds -> in_bounds prof (d_th s) -> surf_ok (d_surface_storage s) ->
+    (in_bounds prof (d_th s') /\ surf_ok (d_surface_storage s')) /\
+    in_bounds prof (piA_th a_pi) /\ in_bounds prof (drA_th a_dr) /\ in_bounds prof (infA_th a_inf) /\
+    in_bounds prof (crA_th a_cr) /\ in_bounds prof (evA_th a_ev) /\ in_bounds prof (trA_th a_tr) /\ in_bounds prof (giA_th a_gi) /\
+    surf_ok (infA_surf a_inf) /\ surf_ok (evA_surf a_ev) /\ surf_ok (trA_surf a_tr).
+  Proof.
+    intros [C1 C2 C3 C4 C5 C6 C7] H0 S0.
+    change (piA_th a_pi) with (d_th s) in *. change (drA_th a_dr) with (piR_th r_pi) in *.
+    change (infA_th a_inf) with (drR_th r_dr) in *. change (infA_surf a_inf) with (d_surface_storage s) in *.
+    change (crA_th a_cr) with (infR_th r_inf) in *. change (evA_th a_ev) with (crR_th r_cr) in *.
+    change (evA_surf a_ev) with (infR_surf r_inf) in *. change (trA_th a_tr) with (evR_th r_ev) in *.
+    change (trA_surf a_tr) with (evR_surf r_ev) in *. change (giA_th a_gi) with (trR_th r_tr) in *.
+    change (d_th s') with (giR_th r_gi). change (d_surface_storage s') with (trR_surf r_tr).
+    pose proof (C1 H0) as H1. pose proof (C2 H1) as H2. destruct (C3 H2 S0) as [H3 S3]. pose proof (C4 H3) as H4.
+    destruct (C5 H4 S3) as [H5 S5]. destruct (C6 H5 S5) as [H6 S6]. pose proof (C7 H6) as H7.
+    repeat split; assumption.
   Qed.
 End Day.
+
+(* the universally quantified form: processes that satisfy their balance statements on every argument *)
+Corollary day_balance_all par P season gs dap tsc w s :
+  let prof := so_prof (p_soil par) in
+  (forall a, storage prof (piR_th (p_pi P prof a)) = storage prof (piA_th a) + piR_preirr (p_pi P prof a)) ->
+  (forall a, piA_gs a = false \/ i_method (piA_irr a) <> 4%Z -> piR_preirr (p_pi P prof a) = 0) ->
+  (forall a, storage prof (drR_th (p_dr P prof a)) + drR_deepperc (p_dr P prof a) = storage prof (drA_th a)) ->
+  (forall a, let r := p_inf P prof a in
+             storage prof (infR_th r) + infR_surf r + infR_deepperc r + infR_runoff r =
+             storage prof (infA_th a) + infA_surf a + offered a + infA_deepperc a + infA_runoff a) ->
+  (forall a, let r := p_inf P prof a in infR_infl r + (infR_runoff r - infA_runoff a) = offered a) ->
+  (forall a, let r := p_ev P prof a in storage prof (evR_th r) + evR_surf r + evR_es r = storage prof (evA_th a) + evA_surf a) ->
+  (forall a, let r := p_tr P prof a in
+             storage prof (trR_th r) + trR_surf r + trR_tr r = storage prof (trA_th a) + trA_surf a + trR_irrnet r) ->
+  (forall a, trA_gs a = false \/ trA_method a <> 4%Z -> trR_irrnet (p_tr P prof a) = 0) ->
+  (forall a, storage prof (giR_th (p_gi P prof a)) = storage prof (giA_th a) + giR_gwin (p_gi P prof a)) ->
+  let o := day_core par P season gs dap tsc w s in
+  let f := r_flux (o_row o) in
+  storage prof (d_th (o_state o)) + d_surface_storage (o_state o) - (storage prof (d_th s) + d_surface_storage s) =
+  fl_Infl f + (if (i_method (sel_irr par season) =? 4)%Z then fl_IrrDay f else 0) + CRactual par P season gs dap tsc w s
+  + fl_GwIn f - fl_DeepPerc f - fl_Es f - fl_Tr f.
+Proof.
+  intros prof H1 H2 H3 H4 H5 H6 H7 H8 H9. apply day_balance. constructor; auto.
+  - apply H4. - apply H5. - apply H6. - apply H7.
+Qed.
